@@ -194,6 +194,55 @@ fn step(h: &mut Handle, hid_: usize, st: &Value) -> Map<String, Value> {
     m
 }
 
+
+/// one OS thread per handle (needs ZipArchive<R>: Send; compiled out when probing why the build fails)
+#[cfg(zip_verif_no_sendsync)]
+fn threads_run(_sc: &Value, _base: &ZipArchive<Yielding>, _out: &mut Vec<Value>, _push: &mut dyn FnMut(&mut Vec<Value>, Map<String, Value>)) {}
+#[cfg(not(zip_verif_no_sendsync))]
+fn threads_run(sc: &Value, base: &ZipArchive<Yielding>, out: &mut Vec<Value>, push: &mut dyn FnMut(&mut Vec<Value>, Map<String, Value>)) {
+        // one OS thread per handle, each with its own script; per-handle logs concatenated
+        let scripts: Vec<Vec<Value>> = sc["scripts"].as_array().map(|a| a.iter().map(|s| s.as_array().cloned().unwrap_or_default()).collect()).unwrap_or_default();
+        let mut joins = vec![];
+        let barrier = Arc::new(std::sync::Barrier::new(scripts.len()));
+        for (k, script) in scripts.into_iter().enumerate() {
+            let mut c = base.clone();
+            let barrier = barrier.clone();
+            joins.push(std::thread::spawn(move || {
+                let _ = &mut c;
+                barrier.wait();
+                let r = catch_unwind(AssertUnwindSafe(|| {
+                    let mut h = Handle { ar: Box::leak(Box::new(c)), file: None };
+                    let mut evs = vec![];
+                    for st in script {
+                        evs.push(step(&mut h, k, &st));
+                    }
+                    h.file = None;
+                    evs
+                }));
+                r.unwrap_or_else(|p| {
+                    let mut m = Map::new();
+                    m.insert("ev".into(), json!("CPanic"));
+                    m.insert("msg".into(), json!(panic_msg(&p)));
+                    vec![m]
+                })
+            }));
+        }
+        for j in joins {
+            match j.join() {
+                Ok(evs) => {
+                    for e in evs {
+                        push(out, e);
+                    }
+                }
+                Err(_) => {
+                    let mut m = Map::new();
+                    m.insert("ev".into(), json!("CPanic"));
+                    push(out, m);
+                }
+            }
+        }
+    }
+
 pub fn run(sc: &Value) -> Vec<Value> {
     let id = sc["sc"].as_str().unwrap_or("?").to_string();
     let mut out: Vec<Value> = vec![];
@@ -284,47 +333,7 @@ pub fn run(sc: &Value) -> Vec<Value> {
             }
         }
     } else {
-        // one OS thread per handle, each with its own script; per-handle logs concatenated
-        let scripts: Vec<Vec<Value>> = sc["scripts"].as_array().map(|a| a.iter().map(|s| s.as_array().cloned().unwrap_or_default()).collect()).unwrap_or_default();
-        let mut joins = vec![];
-        let barrier = Arc::new(std::sync::Barrier::new(scripts.len()));
-        for (k, script) in scripts.into_iter().enumerate() {
-            let mut c = base.clone();
-            let barrier = barrier.clone();
-            joins.push(std::thread::spawn(move || {
-                let _ = &mut c;
-                barrier.wait();
-                let r = catch_unwind(AssertUnwindSafe(|| {
-                    let mut h = Handle { ar: Box::leak(Box::new(c)), file: None };
-                    let mut evs = vec![];
-                    for st in script {
-                        evs.push(step(&mut h, k, &st));
-                    }
-                    h.file = None;
-                    evs
-                }));
-                r.unwrap_or_else(|p| {
-                    let mut m = Map::new();
-                    m.insert("ev".into(), json!("CPanic"));
-                    m.insert("msg".into(), json!(panic_msg(&p)));
-                    vec![m]
-                })
-            }));
-        }
-        for j in joins {
-            match j.join() {
-                Ok(evs) => {
-                    for e in evs {
-                        push(&mut out, e);
-                    }
-                }
-                Err(_) => {
-                    let mut m = Map::new();
-                    m.insert("ev".into(), json!("CPanic"));
-                    push(&mut out, m);
-                }
-            }
-        }
+        threads_run(sc, &base, &mut out, &mut push);
     }
     out
 }
